@@ -119,7 +119,7 @@ def theorem_names(path):
     text = strip_comments(open(path).read())
     ns = re.findall(r'^namespace\s+(\S+)', text, flags=re.M)
     prefix = (ns[0] + '.') if ns else ''
-    return [prefix + n for n in re.findall(r'^theorem\s+([\w.\']+)', text, flags=re.M)]
+    return [prefix + n for n in re.findall(r'^theorem\s+([\w.\'?!]+)', text, flags=re.M)]
 
 
 def module_deps(mod, seen=None):
